@@ -1,0 +1,27 @@
+// Verification hooks (cargo feature `verif-hooks`); not part of the protocol.
+
+//! Canonical digest and read-only views of the [`ParentReadyTracker`].
+
+use std::hash::{Hash, Hasher};
+
+use super::ParentReadyTracker;
+use crate::Slot;
+
+impl ParentReadyTracker {
+    pub(in crate::consensus::pool) fn verif_digest<H: Hasher>(&self, h: &mut H) {
+        let mut slots: Vec<_> = self.states.keys().copied().collect();
+        slots.sort();
+        for slot in slots {
+            slot.hash(h);
+            self.states[&slot].verif_digest(h);
+        }
+        self.root.hash(h);
+    }
+
+    /// Slots for which parent-ready state is retained (sorted).
+    pub(in crate::consensus::pool) fn verif_retained(&self) -> Vec<Slot> {
+        let mut slots: Vec<_> = self.states.keys().copied().collect();
+        slots.sort();
+        slots
+    }
+}
